@@ -48,6 +48,9 @@ CHECKS = {
  "C19": ("DESIGN.md section 5 C19, section 2.9",
    "Race obligations on goroutine-mode runs of the real code: while the symbolic scheduler executes the segments (code between two scheduling points) of the goroutines that are enabled in one world, the executor logs every heap-cell access with the locks held; two accesses of different goroutines to the same cell, at least one a write, not both atomic, with no common lock, whose segments are co-enabled in the same world, form an obligation that the solver must refute (world guard, enabledness and path conditions must be unsatisfiable together). Client programs: concurrent hardware-address creation (the NewNet/NewRouter path), a packet buffer used by a reader, a writer and Close (thorough: 2 readers x 2 writers), a deadline with Set calls racing with timer callbacks. A satisfiable race is replayed under the Go race detector.",
    "Bounded client programs (listed); vnet sockets/routers/filters, the udp listener and dpipe are not covered by race runs yet; the granularity is the engine's heap cell (object, field path) and the modelled synchronisation operations; the Go memory model below that is trusted."),
+ "C10": ("DESIGN.md section 5 C10",
+   "Symbolic-schedule bounded model checking of the vnet UDP socket's read deadline (real SetReadDeadline / ReadFrom code, and through it deadline.Deadline): a user goroutine issues n symbolic events (SetReadDeadline zero / past / future, clock advances), a reader goroutine calls ReadFrom at an arbitrary moment, timers are the model timers dispatched at any later step, then an idle period. Obligations: a read returns a timeout error only if a non-zero deadline is in force and has passed at that moment; at quiescence after the idle period no read is still blocked while a deadline is in force (expiry persists until the deadline is set again). Iterative deepening: n = 1 must complete; n = 3 (thorough: also n = 2 with one and two readers) is explored within a time budget and reported as not covered when the budget is exceeded. The other connection types named by the property (packetio.Buffer = udp.Conn read side, dpipe, Bridge endpoints) implement read deadlines by selecting on deadline.Deadline.Done(): what is decided for them is C09 (Deadline) and C08 (Buffer.Read with a passed deadline).",
+   "Bounded: the smallest instance always, larger ones as far as the time budget allows (the evidence lists which runs completed); no data arrives; timers and the clock are a model (legacy channel-timer semantics for time.NewTimer); dpipe and Bridge Read/deadline interplay is covered only through the shared Deadline component."),
 }
 
 def main():
